@@ -1,7 +1,7 @@
 (* Evaluates the model on the cases recorded from the implementation and compares.
    The driver writes cases_<k>.v files that apply [run_cases] to a literal case list. *)
 From HbsLms Require Import Base.Bytes Model.Consts Model.Winternitz Model.Counter Model.KeyBlob.
-From HbsLms Require Import Model.Lmots Model.Lms Model.Derive Model.Codec Model.Hss Model.SignCore.
+From HbsLms Require Import Model.Lmots Model.Lms Model.Derive Model.Codec Model.Hss Model.SignCore Model.Aux.
 From HbsLms Require Import Gen.Generated Exec.Sha256 Spec.Rfc8554Ots Spec.Rfc8554.
 
 Local Open Scope N_scope.
@@ -34,6 +34,8 @@ Inductive case :=
 | CVerify (n : nat) (msg sig pk : bytes) (verdict : res unit)
 | CLifetime (n : nat) (blob : bytes) (life : res N)
 | CHash (n : nat) (data out : bytes)
+| CKeygenAux (n : nat) (variants : list (N * N)) (seed aux_in : bytes) (sk pk : res bytes) (aux_out : bytes)
+| CSignAux (n : nat) (blob msg aux_in : bytes) (accept : bool) (sig : res bytes) (calls : list (bytes * bool)) (aux_out : bytes)
 (* SigningKey::from_bytes(blob).try_sign(msg): signature and the key bytes afterwards *)
 | CTrySign (n : nat) (blob msg : bytes) (sig after : res bytes)
 | COtsPub (n : nat) (I : bytes) (q : N) (seed : bytes) (ty : N) (out : res bytes)
@@ -94,6 +96,20 @@ Definition model_ots_sign (n : nat) (I : bytes) (q : N) (seed : bytes) (ty : N) 
   | None => Err
   end.
 
+Definition model_keygen_aux (n : nat) (vs : list (N * N)) (seed aux : bytes) : res (bytes * bytes * bytes) :=
+  match params_of_variants n vs with
+  | Some ps => keygen_aux K n (Hn n) ps seed aux
+  | None => Panic
+  end.
+
+(* on an error the caller's slice may already have been shrunk; the harness reports it as it finds it *)
+Definition keygen_aux_ok (n : nat) (vs : list (N * N)) (seed aux_in : bytes) (sk pk : res bytes) (aux_out : bytes) : bool :=
+  match model_keygen_aux n vs seed aux_in with
+  | Ok (s, p, a) => res_eqb bytes_eqb (Ok s) sk && res_eqb bytes_eqb (Ok p) pk && bytes_eqb a aux_out
+  | Err => res_eqb bytes_eqb Err sk && res_eqb bytes_eqb Err pk
+  | Panic => res_eqb bytes_eqb Panic sk
+  end.
+
 (* SigningKey::from_bytes refuses more than REF_IMPL_MAX_PRIVATE_KEY_SIZE bytes *)
 Definition model_try_sign (n : nat) (blob msg : bytes) : res bytes * res bytes :=
   if Nat.ltb (c_used_leafs_size K + c_ref_levels K + c_max_seed_len K) (length blob) then (Err, Err)
@@ -127,6 +143,14 @@ Definition model_of (c : case) : shown :=
   | CVerify n msg sig pk _ => SVerdict (hss_verify K n (Hn n) msg sig pk)
   | CLifetime n blob _ => SNum (get_lifetime K n blob)
   | CHash n data _ => SBytes (Ok (hex (Hn n data)))
+  | CKeygenAux n vs seed aux _ _ _ =>
+    match model_keygen_aux n vs seed aux with
+    | Ok (s, p, a) => SSign (Ok (hex s)) [(hex p, true); (hex a, true)]
+    | Err => SSign Err [] | Panic => SSign Panic []
+    end
+  | CSignAux n blob msg aux acc _ _ _ =>
+    let '(r, cs, a) := sign_core_aux K n (Hn n) blob msg aux (fun _ => acc) in
+    SSign (hexr r) (map (fun c => (hex (fst c), snd c)) cs ++ [(hex a, true)])
   | CTrySign n blob msg _ _ =>
     let r := model_try_sign n blob msg in SPair (hexr (fst r)) (hexr (snd r))
   | COtsPub n tid q seed ty _ => SBytes (hexr (model_ots_pub n tid q seed ty))
@@ -151,6 +175,10 @@ Definition run_case (c : case) : bool :=
   | CVerify n msg sig pk v => res_eqb (fun _ _ => true) (hss_verify K n (Hn n) msg sig pk) v
   | CLifetime n blob l => res_eqb N.eqb (get_lifetime K n blob) l
   | CHash n data out => bytes_eqb (Hn n data) out
+  | CKeygenAux n vs seed aux sk pk aux_out => keygen_aux_ok n vs seed aux sk pk aux_out
+  | CSignAux n blob msg aux acc sig calls aux_out =>
+    let '(r, cs, a) := sign_core_aux K n (Hn n) blob msg aux (fun _ => acc) in
+    res_eqb bytes_eqb r sig && calls_eqb cs calls && bytes_eqb a aux_out
   | CTrySign n blob msg sig after =>
     let r := model_try_sign n blob msg in
     res_eqb bytes_eqb (fst r) sig && res_eqb bytes_eqb (snd r) after
